@@ -263,7 +263,8 @@ func init() {
 // C18: preloaded files act like a prefix whose diagnostics are hidden
 
 type preloadCase struct {
-	Parts  []string `json:"parts"` // P1..Pn, M (each newline terminated)
+	Names  []string `json:"names,omitempty"` // preload file names (their order in .ti-loader.json is the order of Parts)
+	Parts  []string `json:"parts"`           // P1..Pn, M (each newline terminated)
 	Mode   []string `json:"mode"`
 	Origin string   `json:"origin"`
 }
@@ -278,6 +279,9 @@ func judgePreload(c *CheckCtx, rn Runner, pc *preloadCase) *Violation {
 	var preload []string
 	for i := 0; i < n; i++ {
 		name := fmt.Sprintf("pre%d.rb", i+1)
+		if i < len(pc.Names) && pc.Names[i] != "" {
+			name = pc.Names[i]
+		}
 		files[name] = pc.Parts[i]
 		preload = append(preload, name)
 	}
@@ -312,6 +316,41 @@ func judgePreload(c *CheckCtx, rn Runner, pc *preloadCase) *Violation {
 	return &Violation{Sig: "preload:" + strings.Join(pc.Mode, "") + ":" + diffTemplate(want, got), Kind: "preload", Case: mustJSON(pc),
 		What:     fmt.Sprintf("target output with %d preloaded file(s) differs from the concatenation restricted to the target's rows (argv %v, %s program)", n, pc.Mode, pc.Origin),
 		Expected: clip(fmtRecs(want), 3000), Observed: clip(fmtRecs(got), 3000)}
+}
+
+func genPreloadTemplate(r *RNG) *preloadCase {
+	lit := func() string { return Pick(r, []string{"1", "\"s\"", "1.5", ":k", "[1]"}) }
+	var p1, p2, m strings.Builder
+	p1.WriteString("class Acct\n")
+	attrs := []string{"note", "tag", "level"}
+	for _, a := range attrs {
+		if r.Bool() {
+			fmt.Fprintf(&p1, "  %s :%s\n", Pick(r, []string{"attr_reader", "attr_accessor"}), a)
+		}
+	}
+	if r.Bool() {
+		fmt.Fprintf(&p1, "  def initialize\n    @tag = %s\n  end\n", lit())
+	}
+	fmt.Fprintf(&p1, "  def fee(rate)\n    rate\n  end\n  def area\n    %s\n  end\nend\n", lit())
+	fmt.Fprintf(&p1, "def helper(x)\n  x\nend\nunit = %s\n", lit())
+	// the second preload file reopens the class / redefines things: order matters
+	fmt.Fprintf(&p2, "class Acct\n  def area\n    %s\n  end\n  def extra(y = 1)\n    y\n  end\nend\nunit = %s\ndef helper2(z)\n  z\nend\n", lit(), lit())
+	uses := []string{"a = Acct.new", "dbtp a.note", "dbtp a.tag", "dbtp a.fee", "dbtp a.fee(2)", "dbtp a.area", "dbtp a.extra", "dbtp helper", "dbtp helper(1)", "dbtp helper2(\"s\")", "dbtp unit", "unit + 1", "a.level = 3", "dbtp a.level"}
+	m.WriteString(uses[0] + "\n")
+	for _, u := range uses[1:] {
+		if r.Chance(2, 3) {
+			m.WriteString(u + "\n")
+		}
+	}
+	parts := []string{p1.String(), p2.String(), m.String()}
+	names := []string{"shape.rb", "circle.rb"}
+	if r.Bool() {
+		parts[0], parts[1] = parts[1], parts[0]
+	}
+	if r.Bool() {
+		names = []string{"aaa.rb", "zzz.rb"}
+	}
+	return &preloadCase{Parts: parts, Names: names, Mode: Pick(r, [][]string{{}, {"-i"}}), Origin: "template"}
 }
 
 // topLevelSplits returns line indexes (0-based, start of a top-level
@@ -387,6 +426,7 @@ func init() {
 		Run: func(c *CheckCtx) {
 			c.rule = "programs (corpus and generated) split at top-level statement boundaries into 1-3 preload files plus a target; `.ti-loader.json` lists the preload files in order; oracle: out(target | preloads) == out(concatenation) restricted to the target's rows and rebased, and no output line names a preloaded file; modes plain and -i. distinct_nontrivial = distinct (split, mode) whose target rows carry output"
 			c.assumptions = []string{"splits in which a run crashes or hangs are skipped (C01/C02)"}
+			c.bbEvery = 5 // preloading lives in main(): one case in five runs in a real process
 			r := c.RNG.Sub(18)
 			items := Corpus()
 			var jobs []*preloadCase
@@ -422,7 +462,11 @@ func init() {
 					if len(parts) < 2 {
 						continue
 					}
-					jobs = append(jobs, &preloadCase{Parts: parts, Mode: Pick(r, modes), Origin: origin})
+					names := []string{"zeta_first.rb", "mid_second.rb", "alpha_third.rb", "beta_fourth.rb"}
+					if r.Bool() {
+						Shuffle(r, names)
+					}
+					jobs = append(jobs, &preloadCase{Parts: parts, Names: names[:len(parts)-1], Mode: Pick(r, modes), Origin: origin})
 				}
 			}
 			for k := 0; k < c.N(120, len(items)); k++ {
@@ -449,6 +493,12 @@ func init() {
 					}
 				}
 				add(rd.Text(), "generated", cuts)
+			}
+			// definitions in the preload files, uses in the target: attributes that are
+			// never assigned, parameters never bound by a call, redefinitions across
+			// preload files (their order matters)
+			for k := 0; k < c.N(120, 2500); k++ {
+				jobs = append(jobs, genPreloadTemplate(r))
 			}
 			c.Extra("splits", len(jobs))
 			c.Eng.Map(len(jobs), func(s *Slot, i int) {
